@@ -60,6 +60,13 @@ T = '''
                     assert(old(self).bag().count(e) > 0);
                 }
             }
+            assert forall|p: spec_fn(Seq<u8>) -> bool| old(self).data_all(p) implies self.data_all(p) by {
+                assert forall|e: Entry<T>| self.bag().count(e) > 0 implies p(e.data@) by {
+                    assert(self.bag().count(e) == flip_exit.count(e) + requeue(popped, took).count(e));
+                    if requeue(popped, took).count(e) == 0 { assert(old(self).bag().count(e) >= flip_exit.count(e)); }
+                    else if old(self).bag().count(e) == 0 { assert(old(self).bag().count(undec(e)) > 0); assert(undec(e).data == e.data); }
+                }
+            }
             assert forall|lo: int, hi: int| old(self).data_bounded(lo, hi) implies self.data_bounded(lo, hi) by {
                 assert forall|e: Entry<T>| self.bag().count(e) > 0 implies lo <= e.data@.len() <= hi by {
                     assert(self.bag().count(e) == flip_exit.count(e) + requeue(popped, took).count(e));
@@ -76,6 +83,7 @@ T = '''
             final(self).wf(), // [C15.fill]
             (*final(buffer)).cap() == (*old(buffer)).cap(),
             forall|lo: int, hi: int| old(self).data_bounded(lo, hi) ==> final(self).data_bounded(lo, hi),
+            forall|p: spec_fn(Seq<u8>) -> bool| old(self).data_all(p) ==> final(self).data_all(p), // [C07.roundtrip] no new bytes enter a backlog by sending
             exists|popped: Seq<Entry<T>>, took: Seq<bool>, rest: Multiset<Entry<T>>| #![auto]
                 fill_effect(old(self).bag(), final(self).bag(), (*old(buffer)).written(), (*final(buffer)).written(),
                             (*old(buffer)).rem() as int, (*final(buffer)).rem() as int, max_items as int, r as int, PREFIX, popped, took, rest), // [C15.fill] [C07.fill] [C16.prefix]
